@@ -79,6 +79,9 @@ def accumulator_writes(ctx):
                                 out.append((f, n, "BAD", "entry `%s` is (re)initialised without an absence test: counts already "
                                                           "gathered under that key are lost" % norm(t)))
                         elif isinstance(n.value, ast.Name) and n.value.id in f.local_names and (d_ := _single_def(f, n.value.id)) is not None \
+                                and _is_get_increment(_expand(f, d_), ast.Subscript(value=_expand(f, t.value), slice=_expand(f, t.slice), ctx=ast.Load())):
+                            out.append((f, n, "inc", "increment by exactly 1 (through a local: v = d.get(k, 0) + 1; d[k] = v)"))
+                        elif isinstance(n.value, ast.Name) and n.value.id in f.local_names and (d_ := _single_def(f, n.value.id)) is not None \
                                 and isinstance(d_, ast.BinOp) and isinstance(d_.op, ast.Add) and is_lit(d_.right, 1) and norm(d_.left) == norm(t):
                             out.append((f, n, "inc", "increment by exactly 1 (through a local: v = d[k] + 1; d[k] = v)"))
                         elif _is_get_increment(n.value, t):
@@ -107,6 +110,10 @@ def accumulator_writes(ctx):
                                                    "for several classes / labels keeps only the first"))
                     else:
                         out.append((f, n, "append", "class appended to an instance entry"))
+                elif n.func.attr == "pop" and len(n.args) == 2 and not n.keywords and isinstance(parent_map(f.node).get(n), ast.Expr):
+                    # d.pop(k, None) as a statement: the deletion of an entry that may be absent (`if k in d: del d[k]`)
+                    out.append((f, n, "del" if f.name in REMOVAL_FUNCS else "BAD",
+                                "removal of an empty shape" if f.name in REMOVAL_FUNCS else "evidence deleted outside the empty-shape removal"))
                 elif n.func.attr == "setdefault" and len(n.args) == 2 and not n.keywords \
                         and _is_init_value(n.args[1], ast.Subscript(value=n.func.value, slice=n.args[0], ctx=ast.Load())):
                     out.append((f, n, "init", "absence initialisation (setdefault with an empty value keeps what is there)"))
